@@ -75,6 +75,17 @@ func suiteFor(sem *Sem) []Req {
 	if len(names) > 0 {
 		hs = append(hs, []string{joinComma(names)}, []string{joinComma(append(append([]string{}, names...), "zzz-unlisted"))}, names)
 	}
+	// several field lines: allowed first line followed by a disallowed / repeated / unsorted / empty one
+	for i, n := range names {
+		hs = append(hs, []string{n, "x-unlisted"}, []string{n, n}, []string{n, ""}, []string{"", n}, []string{n, "zzz-unlisted," + n})
+		if i+1 < len(names) {
+			hs = append(hs, []string{names[i+1], n}, []string{n, names[i+1]}, []string{n + "," + names[i+1], "x-unlisted"})
+		}
+		if i > 2 {
+			break
+		}
+	}
+	hs = append(hs, []string{"x-listed-1", "x-unlisted"}, []string{"content-type", "x-not-allowed"}, []string{"authorization", "x-unlisted"})
 	for _, h := range hs {
 		add(preflightReq(allowed, "GET", h, false))
 	}
